@@ -47,9 +47,13 @@ def event_scenarios(tier, seed, prefix):
             mixes.append([{"kind": "state", "c": 0.3, "comp": 0, "s": 1e-13, "dir": 1}, {"kind": "state", "c": 0.3, "comp": 0, "s": 1e-13, "dir": -1},
                           {"kind": "state", "c": -0.2, "comp": 1, "s": 1e-18, "dir": 1}, {"kind": "state", "c": -0.2, "comp": 1, "s": 1e-9, "dir": -1},
                           {"kind": "time", "c": P(0.4), "s": 1e-13, "dir": -1}, {"kind": "time", "c": P(0.6), "s": -1e-15, "dir": -1}])
+            # 10: two functions fire in one step of the fixed-step grid, the one listed FIRST crossing LATER, exactly on the step's end node (the
+            #     next step meets that root again on its start node and must recognise it as reported - per function, not per list position)
+            mixes.append([{"kind": "time", "c": P(0.5), "s": 1.0}, {"kind": "time", "c": P(0.45), "s": 1.0},
+                          {"kind": "time", "c": P(0.75), "s": -1.0}, {"kind": "time", "c": P(0.7), "s": 10.0}])
             for k, mix in enumerate(mixes):
                 n += 1
-                if not thorough and (n + seed) % 3 == 0:
+                if not thorough and (n + seed) % 3 == 0 and k != len(mixes) - 1:
                     continue
                 sc = gen.with_tol(gen.base(m, a, b, dt0))
                 sc["dense"] = bool(n % 2)
